@@ -645,6 +645,7 @@ class Type2TagMemoryReader(object):
         assert isinstance(tag, Type2Tag)
         self._data_from_tag = bytearray()
         self._data_in_cache = bytearray()
+        self._unknown = set()  # addresses where a write command failed
         self._tag = tag
 
     def __len__(self):
@@ -685,9 +686,15 @@ class Type2TagMemoryReader(object):
         index = 0
         while index < stop:
             data = self._data_in_cache[index:index+4]
-            if data != self._data_from_tag[index:index+4]:
+            if ((data != self._data_from_tag[index:index+4]
+                 or index in self._unknown)):
+                # what the tag holds is not known until the write command
+                # has completed (it may have been executed although the
+                # response was lost)
+                self._unknown.add(index)
                 self._tag.sector_select(index >> 10)
                 self._tag.write(index >> 2, data)
+                self._unknown.discard(index)
                 self._data_from_tag[index:index+4] = data
             index += 4
 
